@@ -5,6 +5,7 @@ wrapper and operand-kind clauses of C01, C02, C07, C08).
 import ast
 from .core import Finding, RuleResult
 from .indexenum import enumerate_function
+from .tracer_proto import class_dispatch_targets
 from .model import AnalysisError, dotted_name, norm, walk_no_nested, must_raise, seq_iteration
 from .effects import flat
 
@@ -450,8 +451,7 @@ def rule_wrap(ctx):
             mi = m.module(modname)
             if name in mi.functions:
                 d = mi.functions[name]
-                txt = norm(d.node)
-                if d.generated or ("hasattr(x.__class__, '%s')" % name in txt and 'x.__class__.%s(' % name in txt):
+                if d.generated or name in class_dispatch_targets(d):
                     r.ok(construct='dispatch:' + name, sample='%s.%s dispatches on the argument class to .%s' % (modname, name, name))
                 else:
                     r.bad(Finding('C01.wrap', _f(d), 'dispatch', '%s.%s does not dispatch to the class method %s' % (modname, name, name), d.file, d.lineno))
@@ -464,27 +464,39 @@ BINOPS = {'__add__': ('add', True), '__sub__': ('sub', True), '__mul__': ('mul',
 
 
 def _branches(fi):
-    """top-level if/elif chain + trailing statements -> list of (test or None, body)"""
+    """top-level if/elif chain + trailing statements -> list of (test or None, body).  A chain written with guard
+    clauses (`if T1: ...; return` / `if T2: ...; return` / fall-through) is the same chain."""
     out = []
-    body = fi.node.body
-    i = 0
-    while i < len(body):
-        st = body[i]
-        if isinstance(st, ast.If):
-            cur = st
-            while True:
-                out.append((cur.test, cur.body))
-                if len(cur.orelse) == 1 and isinstance(cur.orelse[0], ast.If):
-                    cur = cur.orelse[0]
-                    continue
-                if cur.orelse:
-                    out.append((None, cur.orelse))
-                break
-            rest = body[i + 1:]
+
+    def terminates(body):
+        return bool(body) and isinstance(body[-1], (ast.Return, ast.Raise))
+
+    def chain(stmts, leading=True):
+        i = 0
+        while i < len(stmts) and not isinstance(stmts[i], ast.If):
+            if not leading:
+                out.append((None, stmts[i:]))
+                return
+            i += 1
+        if i == len(stmts):
+            return
+        st = stmts[i]
+        rest = stmts[i + 1:]
+        out.append((st.test, st.body))
+        if st.orelse:
+            if len(st.orelse) == 1 and isinstance(st.orelse[0], ast.If):
+                chain(st.orelse, leading=False)
+            else:
+                out.append((None, st.orelse))
             if rest:
                 out.append((None, rest))
-            return out
-        i += 1
+            return
+        if terminates(st.body) and rest:
+            chain(rest, leading=False)
+        elif rest:
+            out.append((None, rest))
+
+    chain(fi.node.body)
     return out
 
 
@@ -989,6 +1001,21 @@ def rule_dispatch(ctx):
                 if not isinstance(c, ast.Call):
                     continue
                 d = dotted_name(c.func)
+                if d is None and isinstance(c.func, ast.Call) and isinstance(c.func.func, ast.Name) and c.func.func.id == 'getattr' \
+                        and len(c.func.args) >= 2 and dotted_name(c.func.args[0]) is not None:
+                    # getattr(<module or class>, 'NAME')(...) - NAME a constant, or a local bound to constants only
+                    a1 = c.func.args[1]
+                    nm = None
+                    if isinstance(a1, ast.Constant) and isinstance(a1.value, str):
+                        nm = [a1.value]
+                    elif isinstance(a1, ast.Name):
+                        vals = [st_.value for st_ in walk_no_nested(fi.node) if isinstance(st_, ast.Assign)
+                                and any(isinstance(t_, ast.Name) and t_.id == a1.id for t_ in st_.targets)]
+                        vals = [v_ for v_ in vals if not (isinstance(v_, ast.Constant) and v_.value is None)]
+                        if vals and all(isinstance(v_, ast.Constant) and isinstance(v_.value, str) for v_ in vals):
+                            nm = sorted({v_.value for v_ in vals})
+                    if nm is not None and len(nm) == 1:
+                        d = dotted_name(c.func.args[0]) + '.' + nm[0]
                 if d is None:
                     continue
                 last = d.split('.')[-1]
@@ -1008,6 +1035,11 @@ def rule_dispatch(ctx):
                     else:
                         probs.append('delegates to `%s`, expected a function/method named %s' % (d, sorted(accepted)))
                 used = {x.id for x in ast.walk(c) if isinstance(x, ast.Name)}
+                # locals that merely collect parameters (`args = (a, b, x)`) forward them
+                for _ in range(2):
+                    for st_ in walk_no_nested(fi.node):
+                        if isinstance(st_, ast.Assign) and any(isinstance(t_, ast.Name) and t_.id in used for t_ in st_.targets):
+                            used |= {x.id for x in ast.walk(st_.value) if isinstance(x, ast.Name)}
                 for p in params:
                     if p not in used and (name, p) not in NOT_FORWARDED_OK:
                         probs.append('parameter `%s` is not forwarded in `%s`' % (p, norm(c)[:70]))
@@ -1129,6 +1161,18 @@ MAPS = {'trace': ('numpy.trace', []), 'tril': ('numpy.tril', ['k']), 'triu': ('n
         'fft': ('numpy.fft.fft', ['n', 'axis']), 'ifft': ('numpy.fft.ifft', ['n', 'axis'])}
 
 
+def _axis_sign_test(t):
+    """`axis < 0` / `0 > axis` -> 'neg' (body is the negative case); `axis >= 0` / `0 <= axis` -> 'pos'; else None"""
+    if not (isinstance(t, ast.Compare) and len(t.ops) == 1):
+        return None
+    l, rr, op = norm(t.left), norm(t.comparators[0]), t.ops[0]
+    if l == 'axis' and rr == '0':
+        return 'neg' if isinstance(op, ast.Lt) else ('pos' if isinstance(op, ast.GtE) else None)
+    if l == '0' and rr == 'axis':
+        return 'neg' if isinstance(op, ast.Gt) else ('pos' if isinstance(op, ast.LtE) else None)
+    return None
+
+
 def rule_map(ctx):
     r = RuleResult('C13.map', 'slice-wise operations apply the NumPy function of their own name to slice [d,p] inside full d and p loops and '
                               'forward every extra parameter; sum shifts a non-negative axis by the two leading (D,P) axes and a negative axis by data.ndim')
@@ -1165,21 +1209,31 @@ def rule_map(ctx):
         fi = m.lookup_method('UTPM', name)
         if fi is None:
             continue
-        ifs = [n for n in walk_no_nested(fi.node) if isinstance(n, ast.If) and norm(n.test) == 'axis < 0']
-        if len(ifs) != 1:
-            r.unknown(fi.site(), 'axis normalisation `if axis < 0` not found')
+        cands = []
+        for n in walk_no_nested(fi.node):
+            if isinstance(n, ast.If):
+                sgn = _axis_sign_test(n.test)
+                neg = [s_ for s_ in n.body if isinstance(s_, ast.Assign)]
+                pos = [s_ for s_ in n.orelse if isinstance(s_, ast.Assign)]
+                if sgn and len(neg) == 1 and len(pos) == 1 and norm(neg[0].targets[0]) == norm(pos[0].targets[0]):
+                    ne, pe = neg[0].value, pos[0].value
+                    cands.append((n, ne, pe) if sgn == 'neg' else (n, pe, ne))
+            if isinstance(n, ast.IfExp):
+                sgn = _axis_sign_test(n.test)
+                if sgn:
+                    cands.append((n, n.body, n.orelse) if sgn == 'neg' else (n, n.orelse, n.body))
+        if len(cands) != 1:
+            r.unknown(fi.site(), 'axis normalisation (a test of the sign of `axis` selecting between two shifts) not found')
             continue
-        neg = [s for s in ifs[0].body if isinstance(s, ast.Assign)]
-        pos = [s for s in ifs[0].orelse if isinstance(s, ast.Assign)]
-        okn = len(neg) == 1 and isinstance(neg[0].value, ast.BinOp) and isinstance(neg[0].value.op, ast.Add) \
-            and {norm(neg[0].value.left), norm(neg[0].value.right)} in ({'self.data.ndim', 'axis'}, {'x.data.ndim', 'axis'})
-        okp = len(pos) == 1 and isinstance(pos[0].value, ast.BinOp) and isinstance(pos[0].value.op, ast.Add) \
-            and {norm(pos[0].value.left), norm(pos[0].value.right)} == {'axis', '2'}
+        node, ne, pe = cands[0]
+        okn = isinstance(ne, ast.BinOp) and isinstance(ne.op, ast.Add) \
+            and {norm(ne.left), norm(ne.right)} in ({'self.data.ndim', 'axis'}, {'x.data.ndim', 'axis'})
+        okp = isinstance(pe, ast.BinOp) and isinstance(pe.op, ast.Add) and {norm(pe.left), norm(pe.right)} == {'axis', '2'}
         if okn and okp:
-            r.ok(construct=name + ':axis', nontrivial=True, sample='UTPM.%s: `%s` / `%s`' % (name, norm(neg[0]), norm(pos[0])))
+            r.ok(construct=name + ':axis', nontrivial=True, sample='UTPM.%s: negative axis -> `%s`, non-negative -> `%s`' % (name, norm(ne), norm(pe)))
         else:
             r.bad(Finding('C13.map', _f(fi), name + ':axis', 'UTPM.%s does not shift the axis by data.ndim (negative) / 2 (non-negative): %s / %s'
-                          % (name, [norm(s) for s in neg], [norm(s) for s in pos]), fi.file, ifs[0].lineno))
+                          % (name, norm(ne), norm(pe)), fi.file, node.lineno))
     # whole-array maps
     for name, fn in (('conjugate', 'numpy.conjugate'),):
         fi = m.lookup_method('UTPM', name)
@@ -1248,6 +1302,81 @@ def rule_sym(ctx):
             r.bad(Finding('C13.sym', 'algopy.utpm.utpm:UTPM.pb_symvec', 'UPLO=' + u, "pb_symvec and symvec disagree on the entry <-> position map for UPLO='%s': %s vs %s"
                           % (u, b[:4], a[:4]), 'algopy/utpm/utpm.py', 0))
     r.floor = 7
+    return r
+
+
+def _scalar_shape_test(test, name):
+    """classify the guard that wraps a scalar `shape` argument into a tuple:
+    'all'   - true for every integer scalar NumPy accepts as a shape (Python int, numpy.integer)
+    'some'  - true for Python ints only (numpy integer scalars reach `(D, P) + shape`, which then broadcasts)
+    None    - not recognised"""
+    t = test
+    if isinstance(t, ast.Call):
+        d = dotted_name(t.func) or ''
+        if d in ('numpy.isscalar', 'np.isscalar') and len(t.args) == 1 and norm(t.args[0]) == name:
+            return 'all'
+        if d == 'isinstance' and len(t.args) == 2 and norm(t.args[0]) == name:
+            kinds = [dotted_name(x) or '' for x in (t.args[1].elts if isinstance(t.args[1], ast.Tuple) else [t.args[1]])]
+            if any(k in ('numbers.Integral', 'numbers.Number', 'numbers.Real') for k in kinds):
+                return 'all'
+            if any(k in ('numpy.integer', 'numpy.number', 'numpy.generic') for k in kinds) and 'int' in kinds:
+                return 'all'
+            if kinds and all(k in ('int', 'float', 'bool') for k in kinds):
+                return 'some'
+    if isinstance(t, ast.UnaryOp) and isinstance(t.op, ast.Not) and isinstance(t.operand, ast.Call) \
+            and (dotted_name(t.operand.func) or '') == 'isinstance' and norm(t.operand.args[0]) == name:
+        kinds = [dotted_name(x) or '' for x in (t.operand.args[1].elts if isinstance(t.operand.args[1], ast.Tuple) else [t.operand.args[1]])]
+        if kinds and all(k in ('tuple', 'list') for k in kinds):
+            return 'all'
+    if isinstance(t, ast.Compare) and len(t.ops) == 1 and isinstance(t.ops[0], (ast.Eq, ast.Is)) \
+            and norm(t.left) in ('type(%s)' % name,) and norm(t.comparators[0]) == 'int':
+        return 'some'
+    if isinstance(t, ast.Compare) and len(t.ops) == 1 and isinstance(t.ops[0], ast.Eq) and norm(t.left) == 'numpy.ndim(%s)' % name \
+            and norm(t.comparators[0]) == '0':
+        return 'all'
+    return None
+
+
+def rule_shape_arg(ctx):
+    r = RuleResult('C10.shape-arg', 'allocation functions with a `shape` parameter that is concatenated to (D, P): every integer scalar that '
+                                    'numpy.zeros/ones accept as a shape (Python int and NumPy integer scalars) is wrapped into a tuple first - '
+                                    'otherwise `(D, P) + numpy.int64(n)` broadcasts to array([D+n, P+n]) and the result has the wrong shape and degree')
+    m = ctx.model
+    mi = m.module('algopy.globalfuncs')
+    for name, fi in sorted(mi.functions.items()):
+        if 'shape' not in fi.params:
+            continue
+        concat = [n for n in walk_no_nested(fi.node) if isinstance(n, ast.BinOp) and isinstance(n.op, ast.Add)
+                  and ((isinstance(n.left, ast.Tuple) and norm(n.right) == 'shape') or (isinstance(n.right, ast.Tuple) and norm(n.left) == 'shape'))]
+        if not concat:
+            continue
+        wraps = []
+        for n in walk_no_nested(fi.node):
+            if isinstance(n, ast.If) and n.lineno < concat[0].lineno and any(
+                    isinstance(b, ast.Assign) and norm(b.targets[0]) == 'shape' and isinstance(b.value, ast.Tuple) and [norm(e) for e in b.value.elts] == ['shape']
+                    for b in n.body):
+                wraps.append(n)
+        conv = [n for n in walk_no_nested(fi.node) if isinstance(n, ast.Assign) and norm(n.targets[0]) == 'shape' and isinstance(n.value, ast.Call)
+                and (dotted_name(n.value.func) or '') in ('tuple',) and n.lineno < concat[0].lineno]
+        key = name + ':scalar-shape'
+        if not wraps and not conv:
+            r.bad(Finding('C10.shape-arg', _f(fi), key, '%s concatenates `%s` without wrapping a scalar shape into a tuple first' % (name, norm(concat[0])),
+                          fi.file, concat[0].lineno))
+            continue
+        if conv and not wraps:
+            r.unknown(fi.site(conv[0]), 'shape normalised by `%s`: not a recognised form' % norm(conv[0]))
+            continue
+        kinds = [_scalar_shape_test(w.test, 'shape') for w in wraps]
+        if 'all' in kinds:
+            r.ok(construct=key, sample='%s: `if %s: shape = (shape,)` before `%s`' % (name, norm(wraps[kinds.index('all')].test), norm(concat[0])))
+        elif 'some' in kinds:
+            w = wraps[kinds.index('some')]
+            r.bad(Finding('C10.shape-arg', _f(fi), key, '%s wraps the shape only under `%s`: a NumPy integer scalar (e.g. numpy.prod(A.shape), A.shape[0] of '
+                                                        'some arrays) reaches `%s`, which broadcasts instead of concatenating' % (name, norm(w.test), norm(concat[0])),
+                          fi.file, w.lineno))
+        else:
+            r.unknown(fi.site(wraps[0]), 'scalar-shape guard `%s` not recognised' % norm(wraps[0].test))
+    r.floor = 2
     return r
 
 
